@@ -253,6 +253,33 @@ func c04Phase(c *vk.Ctx, r *rand.Rand, natTimeout time.Duration, expiry bool) bo
 		c.Count("client_epochs_checked", int64(len(eps)))
 	}
 	if expiry {
+		// one client alone on the listener: its association expires, and the very next datagram the
+		// server handles is from that same client again - a new association, a new outbound address
+		solo, err := newUDPClient(net.IPv4(198, 51, 100, 240).To4(), 0, keys[r.Intn(len(keys))])
+		if err == nil {
+			var ports []string
+			for gen := 0; gen < 3; gen++ {
+				id := nextID(c.Batch)
+				solo.Send(ssUDP(solo.Key, randBytes(r, solo.Key.Codec().C.SaltSize), w.targets[0].addr(), mkUDPPayload(id, 1, 16, 24)), w.rig.Addr4())
+				g, ok := w.targets[0].waitID(id, udpB)
+				_, rep := solo.waitReply(solo.Key, id|1<<56, udpB)
+				c.Eval("expiry|solo-client|generation")
+				if !ok || !rep {
+					c.Violation("C04/valid-datagram-not-forwarded", map[string]any{"client": solo.Addr.String(), "phase": "a client alone on the listener, after its association expired", "generation": gen, "forwarded": ok, "reply_delivered": rep})
+					solo.Close()
+					return false
+				}
+				_, p, _ := net.SplitHostPort(g.From)
+				ports = append(ports, p)
+				// wait for the expiry of this association (timeout + slow reaper), nobody else sends
+				as := w.rig.Rec.ByClient(solo.Addr.String())
+				for dl := time.Now().Add(natTimeout + udpB); len(as) > 0 && len(as[len(as)-1].Snap().Removed) == 0 && time.Now().Before(dl); {
+					time.Sleep(5 * time.Millisecond)
+				}
+			}
+			solo.Close()
+			c.Count("solo_client_generations", int64(len(ports)))
+		}
 		c.Count("expiry_phases", 1)
 		c.Eval(fmt.Sprintf("phase|expiry|clients=%d", M))
 		return true
